@@ -24,8 +24,8 @@ PARTIAL = {
     "C01": "proved for all inputs: CJJ14.PiBas and CJJ14.PiPack (Enc |- Repr, Repr |- Search == DB[w], composed client lemma) and the shared toolkit callees; bounded stand-in only: the other seven schemes",
     "C02": "proved for all inputs: CJJ14.PiBas, CJJ14.PiPack (absent keyword => empty result, no exception); bounded stand-in only: the other seven schemes",
     "C03": "proved for all inputs: key / token / result / encrypted-database serialize + deserialize of all nine schemes (exact ValueError conditions, field layout, deserialize(serialize(x)) == x for every well-formed object; modulo P1 for the pickled parts) except the SSE-1 / SSE-2 key parsers (star-args over a computed list: bounded only); CJJ14.PiBas / PiPack config parsing; bounded stand-in only: the server-side composition through JSON config + wire formats and the two key parsers",
-    "C05": "proved for all inputs: CJJ14.PiBas |D| == N, CJJ14.PiPack |D| == number of blocks, and the table builder's size; bounded stand-in only: the other seven schemes and value-length uniformity",
-    "C06": "proved for all inputs: the label-table builders of CJJ14.PiBas / PiPack store labels in strictly ascending order (modulo B3); bounded stand-in only: the other builders and array placement",
+    "C05": "proved for all inputs: CJJ14.PiBas |D| == N, CJJ14.PiPack |D| == number of blocks, and the table builders' sizes (|table| == number of pairs) for PiPtr, Pi2Lev, CT14.Pi and ANSS16.Scheme3 as well; bounded stand-in only: the shape of the whole index for the other seven schemes and value-length uniformity",
+    "C06": "proved for all inputs: the label-table builders of CJJ14.PiBas / PiPack / PiPtr / Pi2Lev, CT14.Pi and ANSS16.Scheme3 store labels in strictly ascending order whatever the order of their input (modulo B3); bounded stand-in only: that every table of an index is built through these builders, the DP17 / SSE-1 / SSE-2 layouts, and array placement",
     "C07": "proved for all inputs: for all nine schemes, KeyGen/EDBSetup/TokenGen/Search and _Gen/_Enc/_Trap/_Search (with every function they call, transitively) mutate nothing reachable from their arguments or from self -- frame contracts decided by the ownership pass (pyvc/own.py: abstract interpretation of the real AST, one obligation per mutating statement); for CJJ14.PiBas / PiPack the same frame obligations are also discharged by the SMT engine together with the functional contracts; bounded stand-in only: the history claim (results independent of earlier operations) and value-level equality of arguments before/after",
     "C08": "proved for all inputs: the last clause for all nine schemes -- for every key that a scheme's _parse_config reads from the dictionary (read from the real source on every run), a configuration without that key is refused with ValueError while the configuration is built (125 contract variants); CJJ14.PiBas / PiPack _parse_config exact refusal conditions and, through C01, correct searches for every accepted configuration of those two schemes; bounded stand-in only: 'setup completes => every search is correct' over the configuration grid for the other seven schemes",
 }
@@ -60,8 +60,8 @@ PROPS = {
     "C03": dict(modules=["pibas", "pipack", "structures_all", "producers_all", "sse_bounded"], assumptions=A_SSE, bounded=[], partial=PARTIAL["C03"], runtime_checks=[["sse_bounded", "rt_c03"]]),
     "C04": dict(modules=["pibas", "pipack", "producers_all", "sse_bounded"], assumptions=A_SSE + ["A4/A2 (NOT decided): absence of chance substrings / collisions is probabilistic"], bounded=[],
                 partial=PARTIAL["C04"], runtime_checks=[["sse_bounded", "rt_c04"]], prov_contracts=PROV_CONTRACTS),
-    "C05": dict(modules=["pibas", "pipack", "sse_bounded"], assumptions=A_SSE, bounded=[], partial=PARTIAL["C05"], runtime_checks=[["sse_bounded", "rt_c05"]]),
-    "C06": dict(modules=["pibas", "pipack", "sse_bounded"], assumptions=A_SSE, bounded=[], partial=PARTIAL["C06"], runtime_checks=[["sse_bounded", "rt_c06"]]),
+    "C05": dict(modules=["pibas", "pipack", "structures_all", "sse_bounded"], assumptions=A_SSE, bounded=[], partial=PARTIAL["C05"], runtime_checks=[["sse_bounded", "rt_c05"]]),
+    "C06": dict(modules=["pibas", "pipack", "structures_all", "sse_bounded"], assumptions=A_SSE, bounded=[], partial=PARTIAL["C06"], runtime_checks=[["sse_bounded", "rt_c06"]]),
     "C07": dict(modules=["pibas", "pipack", "producers_all", "sse_bounded"], assumptions=A_SSE, bounded=[], partial=PARTIAL["C07"], runtime_checks=[["sse_bounded", "rt_c07"]], own_frames=OWN_FRAMES),
     "C08": dict(modules=["pibas", "pipack", "configs_all", "sse_bounded"], assumptions=A_SSE, bounded=[], partial=PARTIAL["C08"], runtime_checks=[["sse_bounded", "rt_c08"]]),
     "C19": dict(modules=["persist", "persist_bounded"], assumptions=A_ENGINE + ["D2: ghost file system (pyvc/files.py): open/seek/read/write/close, os.path.exists, os.unlink, pickle.dump/load on a file object as documented; sparse writes zero-fill; buffering transparent", "P1: pickle round trip of the meta tuple", "B5: collections.abc.Sequence.__iter__ is the documented loop over __getitem__ until IndexError (restated as ghost code and verified)", "cidx_def: conservative inverse of the (proved injective) chunk-path function"], bounded=[],
